@@ -69,6 +69,12 @@ def scenarios(tier, seed=0):
     for name in (allnames[::3] if q else allnames):
         for ext in ([1, 365] if q else [1, 30, 365, 730]):
             yield {"kind": "extend", "name": name, "ext": ext}
+    # ... also with time series other than weather that reach beyond the original end date (water-table observations, dated schedule)
+    for name in (["Maize", "Wheat", "PotatoGDD"] if q else allnames[::2]):
+        for ext in ([365] if q else [30, 365]):
+            for gw in ("obs_beyond_v", "obs_beyond_c"):
+                yield {"kind": "extend", "name": name, "ext": ext, "gw": gw}
+            yield {"kind": "extend", "name": name, "ext": ext, "sched": True}
 
 
 def run(scn):
@@ -142,7 +148,14 @@ def run(scn):
         return res
 
     if scn["kind"] == "extend":
-        spec = A.catalogue_spec(scn["name"], word="hot", irr="smt", iwc="Pct50")
+        spec = A.catalogue_spec(scn["name"], word="hot", irr="smt", iwc="Pct50", dz="deep30" if scn.get("gw") else "d12")
+        if scn.get("gw"):
+            # observations: at the start, and 400 / 600 days later (beyond the original end date, inside / beyond the extension)
+            meth = "Variable" if scn["gw"].endswith("_v") else "Constant"
+            spec["gw"] = A.resolve_gw({"method": meth, "series": [[0, 2.4], [400, 1.0], [600, 1.8]]}, spec["start"])
+        if scn.get("sched"):
+            sd = A._d(spec["start"])
+            spec["irr"] = {"method": 3, "kw": {"MaxIrr": 40}, "schedule": [[A._f(sd + dt.timedelta(days=k)), 20.0] for k in (5, 30, 60, 380, 420, 700)]}
         tb, ab, mb = run_plain(spec, timeout=240)
         p = copy.deepcopy(spec)
         p["end"] = A._f(A._d(spec["end"]) + dt.timedelta(days=scn["ext"]))
@@ -181,7 +194,7 @@ def describe(tier):
                 + ("" if tier == "quick" else ", groundwater, bunds") + "} x EVERY" + (" third" if tier == "quick" else "") + " cut day t of both seasons x a different weather word from t onwards {storm, heat"
                 + ("" if tier == "quick" else ", cold, drought") + "}: rows with index < t of all three daily tables and summary rows of seasons harvested before t must be bitwise equal; all 37 crops with "
                 "400/4000 wildly different weather records before and/or after the window (also with leading rows dropped without re-indexing, a gap of missing days and a duplicated row outside the window); all built-in crops with the end date extended by {1" + ("" if tier == "quick" else ",30") + ",365" + ("" if tier == "quick" else ",730") + "} days "
-                "(completed seasons' in-season rows and summary rows unchanged).",
+                "(completed seasons' in-season rows and summary rows unchanged), also with water-table observations and a dated irrigation schedule that reach beyond the original end date.",
         "bound": "every cut day (quick: every 3rd) of a 2-season window; extra-row and extension menus complete",
         "exhaustive": True,
         "witnesses": WITNESSES,
